@@ -1072,7 +1072,11 @@ async fn updater_batch(zone: &Zone, mdl: &Mdl, who: &str, names: &[String]) {
         sim::stat("fault.writer_abort");
         mdl.borrow_mut().aborts += 1;
         release(mdl);
-        drop(up);
+        if sim::chance("up.abort_by_crash", 1, 3) {
+            sim::crash_drop(up);
+        } else {
+            drop(up);
+        }
     } else {
         serial = serial.wrapping_add(1);
         let s = soa_rec(serial);
